@@ -13,6 +13,7 @@ import numpy
 from scipy import constants
 
 from mc import core
+from mc import ref_units as ru
 
 LEVEL = 'exploration'
 
@@ -222,6 +223,45 @@ def check_entry(ctx):
             low = core.call(fn, p[idx], n[idx], 77.355, geom, ads, get_hk_model('Carbon(HK)'), model.endswith('CY'))
             if low.ok and (core.relerr(o.value['pore_widths'], low.value[0]) > 1e-9 or core.relerr(o.value['pore_volume_cumulative'], low.value[2]) > 1e-9):
                 ctx.violate(core.make_violation({'check': 'entry-vs-lowlevel', 'model': model}, f'psd_microporous({model},{geom},{lim}) differs from the low-level function on the same points', {}))
+    # data that start with the measured (0, 0) origin: the positive-pressure points keep their widths and their volumes
+    for model, geom in (('HK', 'slit'), ('HK', 'cylinder'), ('HK', 'sphere'), ('RY', 'slit')):
+        for lim in (None, (None, None), (0, 0.05)):
+            without = core.call(pgc.psd_microporous, iso, psd_model=model, pore_geometry=geom, p_limits=lim, timeout=600)
+            iso0 = pygaps.PointIsotherm(pressure=numpy.concatenate([[0.0], p]), loading=numpy.concatenate([[0.0], n]), material='c17', adsorbate='N2',
+                                        temperature=77.355, pressure_mode='relative', loading_basis='molar', loading_unit='mmol', material_basis='mass', material_unit='g')
+            with_o = core.call(pgc.psd_microporous, iso0, psd_model=model, pore_geometry=geom, p_limits=lim, timeout=600)
+            ev += 1
+            if not without.ok:
+                continue
+            nt += 1
+            ww, wo = (numpy.asarray(with_o.value['pore_widths']), numpy.asarray(without.value['pore_widths'])) if with_o.ok else (None, None)
+            bad = not with_o.ok or len(ww) != len(wo) + 1 or core.relerr(ww[1:], wo) > 1e-6 or \
+                core.relerr(numpy.asarray(with_o.value['pore_volume_cumulative'])[1:], without.value['pore_volume_cumulative']) > 1e-9
+            if bad:
+                ctx.violate(core.make_violation(
+                    {'check': 'origin-point-shifts-results', 'model': model},
+                    f'psd_microporous({model},{geom},{lim}) on data starting with the (0, 0) point: widths {list(numpy.round(ww, 4)) if with_o.ok else with_o.brief()} / volumes '
+                    f'{list(numpy.round(with_o.value["pore_volume_cumulative"], 5)) if with_o.ok else ""}; the same data without that point give widths {list(numpy.round(wo, 4)) if with_o.ok else ""} / volumes '
+                    f'{list(numpy.round(without.value["pore_volume_cumulative"], 5))} (expected: identical for the positive-pressure points)', {}))
+    # the same adsorbate analysed at several temperatures in one process: volumes use the liquid density at EACH temperature
+    for aname, temps in (('N2', (77.355, 90.0, 70.0, 77.355)),):     # the only shipped adsorbate with HK parameters and a backend
+        a2 = pygaps.Adsorbate.find(aname)
+        for T in temps:
+            isoT = pygaps.PointIsotherm(pressure=p, loading=n, material='c17', adsorbate=aname, temperature=T, pressure_mode='relative', loading_basis='molar',
+                                        loading_unit='mmol', material_basis='mass', material_unit='g')
+            o = core.call(pgc.psd_microporous, isoT, psd_model='HK', pore_geometry='slit', p_limits=(None, None), timeout=600)
+            ev += 1
+            if not o.ok:
+                ctx.violate(core.make_violation({'check': 'entry-raises', 'model': 'HK', 'kind': o.kind}, f'psd_microporous(HK, slit) for {aname} at {T} K {o.brief()}', {}))
+                continue
+            nt += 1
+            c = ru.ads_consts(a2.backend_name, T)
+            want = n[1:] * c['M'] / c['dl'] / 1000.0
+            got = numpy.asarray(o.value['pore_volume_cumulative'])
+            if len(got) != len(want) or core.relerr(got, want) > 1e-6:
+                ctx.violate(core.make_violation({'check': 'volume-at-each-temperature', 'model': 'HK'},
+                                                f'psd_microporous(HK, slit) for {aname} at {T} K (after analyses at {temps[:temps.index(T)]} K in the same process): cumulative volumes '
+                                                f'{list(got[:3])} but loading x M / rho_liquid({T} K) = {list(want[:3])}', {'temperatures': temps}, want, got))
     ctx.add('isotherm_entry', ev, nt)
 
 
